@@ -13,14 +13,14 @@ from mc import docs
 from mc.kernel import Tally, case_alarm, chunked, fan_out, observed_warnings
 from mc.observe import compare_items, compare_outcome, exc_names, items_of, parse_one
 from mc.ref.interp import decode_packet
-from mc.spec import (BoolExpr, Cmp, Cond, Container, Doc, IntEnc, Or, Param, PType, HEADER_NAMES, header_entries, header_params,
+from mc.spec import (BoolExpr, Cmp, Cond, Container, Doc, IntEnc, Or, Param, Poly, PType, HEADER_NAMES, header_entries, header_params,
                      header_ptypes, load_doc, build_objects)
 
 PROP = "C05"
 LEVEL = "exploration"
 
 OTHER_NAMES = ("CCSDS_VER", "CCSDS_TYPE", "CCSDS_SHF", "APP_ID", "GRP_FLAGS", "SSC", "LENGTH")
-N_CRIT = 7
+N_CRIT = 8
 
 
 def criterion(k, apid):
@@ -32,6 +32,8 @@ def criterion(k, apid):
         (Cmp(apid, "==", "1"), Cmp("SEL", "==", "0")),  # comparison list
         (BoolExpr(Or((Cond("SEL", "==", right_value="1", right_cal=False), Cond(apid, "==", right_value="2", right_cal=False)))),),
         None,                                           # BaseContainer without RestrictionCriteria
+        # two-parameter condition whose selectors differ; CSEL is calibrated (2x), so raw and calibrated disagree
+        (BoolExpr(Cond("SEL", "==", right_param="CSEL", left_cal=False, right_cal=True)),),
     ][k]
 
 
@@ -44,13 +46,14 @@ def parent_vectors(n):
 def make_doc(n, parents, crits, abstract_bits, nest, children_first, other_names, root_name="CCSDSPacket"):
     names = OTHER_NAMES if other_names else HEADER_NAMES
     apid = names[3]
-    pts = list(header_ptypes()) + [PType("SEL_T", "Integer", IntEnc(2)), PType("P6_T", "Integer", IntEnc(6)), PType("M_T", "Integer", IntEnc(8))]
-    prs = list(header_params(names)) + [Param("SEL", "SEL_T"), Param("P6", "P6_T")] + [Param(f"M{i}", "M_T") for i in range(1, n)] + [Param("NM", "M_T"), Param("TAILM", "M_T"), Param("LM", "M_T"), Param("RM", "M_T")]
+    pts = list(header_ptypes()) + [PType("SEL_T", "Integer", IntEnc(2)), PType("P6_T", "Integer", IntEnc(6)), PType("M_T", "Integer", IntEnc(8)),
+                                   PType("CSEL_T", "Integer", IntEnc(2, default_cal=Poly(((2.0, 1),)))), PType("P4_T", "Integer", IntEnc(4))]
+    prs = list(header_params(names)) + [Param("SEL", "SEL_T"), Param("CSEL", "CSEL_T"), Param("P6", "P4_T")] + [Param(f"M{i}", "M_T") for i in range(1, n)] + [Param("NM", "M_T"), Param("TAILM", "M_T"), Param("LM", "M_T"), Param("RM", "M_T")]
     cnames = [root_name] + [f"C{i}" for i in range(1, n)]
     conts = []
     for i in range(n):
         if i == 0:
-            entries = list(header_entries(names)) + [("p", "SEL"), ("p", "P6")]
+            entries = list(header_entries(names)) + [("p", "SEL"), ("p", "CSEL"), ("p", "P6")]
         else:
             entries = [("p", f"M{i}")]
         if nest == 1:
@@ -71,7 +74,7 @@ def make_doc(n, parents, crits, abstract_bits, nest, children_first, other_names
         elif nest == 2:
             # nested container inside the root, between header and SEL
             if i == 0:
-                entries = list(header_entries(names)) + [("c", "NEST"), ("p", "SEL"), ("p", "P6")]
+                entries = list(header_entries(names)) + [("c", "NEST"), ("p", "SEL"), ("p", "CSEL"), ("p", "P6")]
         base = None if i == 0 else cnames[parents[i - 1]]
         crit = None if i == 0 else criterion(crits[i - 1], apid)
         conts.append(Container(cnames[i], tuple(entries), base=base, criteria=crit, abstract=bool(abstract_bits >> i & 1),
@@ -91,7 +94,7 @@ def packets():
     out = []
     for apid in range(4):
         for sel in range(4):
-            payload = format(sel, "02b") + "101010" + "".join(format(0x10 * (k + 1) + sel, "08b") for k in range(9))
+            payload = format(sel, "02b") + format((sel + apid) % 4, "02b") + "1010" + "".join(format(0x10 * (k + 1) + sel, "08b") for k in range(9))
             out.append(docs.packet_for(apid, payload, seqcount=apid * 4 + sel))
     return out
 
@@ -230,8 +233,8 @@ def run(ctx):
     coverage = {
         "programs": tally.programs,
         "exhaustive": True,
-        "bound": (f"all parent vectors with <= {3 if ctx.quick else 4} containers x 7 criteria per child edge (APID==1, APID==2, APID!=1, SEL<2, two-comparison list, "
-                  "boolean expression, no RestrictionCriteria) x abstract flag per node x nesting {none, shared nested container referenced from two nodes, nested "
+        "bound": (f"all parent vectors with <= {3 if ctx.quick else 4} containers x 8 criteria per child edge (APID==1, APID==2, APID!=1, SEL<2, two-comparison list, "
+                  "boolean expression, no RestrictionCriteria, two-parameter condition with mixed raw/calibrated selectors) x abstract flag per node x nesting {none, shared nested container referenced from two nodes, nested "
                   "inside the root} x document order {parents first, children first} x header naming {conventional, other}; packets APID 0..3 x SEL 0..3; "
                   "parse_ccsds_packet and the generator with and without error reporting; every 11th document also built from objects"),
         "rule": "one evaluation = one packet through one API; distinct non-trivial = documents whose 16 packets reached >= 2 outcome classes",
